@@ -112,12 +112,47 @@ fn do_lll(ctx: &mut Ctx, b: &M) {
 }
 
 /// lll of a valid (square, dimension >= 2, non-singular, exactly representable) basis; others are dropped
+/// the same basis scaled by 2^k (exact in f64): LLL is scale invariant, and scaling by a power of two
+/// is exact in binary floating point, so the implementation must return the same H and 2^k·(H·B).
+/// The answer is reported with the scale divided out again, in the format of `lll`.
+fn do_lll_scaled(ctx: &mut Ctx, b: &M, k: i32) {
+    let ans = run(|| {
+        let s = 2f64.powi(k);
+        let bf: Vec<Vec<f64>> = mat_f64(b).iter().map(|r| r.iter().map(|v| v * s).collect()).collect();
+        let (red, h) = lll(&bf);
+        let mut ok = true;
+        let rows: Vec<String> = red
+            .iter()
+            .map(|r| {
+                r.iter()
+                    .map(|&v| match int_of(v / s) {
+                        Some(i) if (i as f64) * s == v => i.to_string(),
+                        _ => {
+                            ok = false;
+                            String::new()
+                        }
+                    })
+                    .collect::<Vec<_>>()
+                    .join(",")
+            })
+            .collect();
+        let bs = if ok { rows.join(";") } else { "nonint".to_string() };
+        format!("{}|{}", bs, show_mat(&h))
+    });
+    ctx.emit("lll.scaled", &[show_mat(b), k.to_string()], ans);
+}
+
 fn lll_case(ctx: &mut Ctx, b: &M) -> bool {
     let n = b.len();
     if n < 2 || b.iter().any(|r| r.len() != n) || max_abs(b) >= BigInt::from(1u64 << 52) || det(b).is_zero() {
         return false;
     }
     do_lll(ctx, b);
+    // the same basis at another scale now and then (entries of size 2^-40 … 2^30 times the integers)
+    if max_abs(b) < BigInt::from(1u64 << 20) && ctx.rng.chance(1, 6) {
+        let k = [-40, -30, -20, -20, -10, 10, 30][ctx.rng.below(7) as usize];
+        do_lll_scaled(ctx, b, k);
+    }
     true
 }
 
@@ -291,6 +326,10 @@ fn do_muk(ctx: &mut Ctx, f: &[BigInt], kind: &str, seed: u64) {
 pub fn replay(ctx: &mut Ctx, f: &[&str]) -> bool {
     match (f[0], f.len()) {
         ("lll", 2) => do_lll(ctx, &parse_mat(f[1])),
+        ("lll.scaled", 3) => match f[2].parse::<i32>() {
+            Ok(k) => do_lll_scaled(ctx, &parse_mat(f[1]), k),
+            Err(_) => return false,
+        },
         ("enum", 3) => do_enum(ctx, &parse_mat(f[1]), &parse_rat(f[2])),
         ("chval", 3) => do_chval(ctx, &parse_mat(f[1]), &parse_ints(f[2])),
         ("nroots", 3) => match f[2].parse::<u64>() {
@@ -621,6 +660,27 @@ fn gen_enum(ctx: &mut Ctx) {
     do_enum(ctx, &q0, &BigRational::from(BigInt::from(3)));
     for k in 0..8 {
         do_enum(ctx, &q0, &half(k));
+    }
+    // bounds that are attained: only forms whose quadratic completion is dyadic (every operation of the
+    // floating-point enumeration is then exact, so the boundary vectors must be reported):
+    // Z^n, 2·Z^n, diagonal forms, [[2,1],[1,1]], A_2, [[4,2],[2,3]], [[1,0,0],[0,2,1],[0,1,1]]
+    let mut exact_forms: Vec<M> = vec![
+        parse_mat("2,1;1,1"),
+        parse_mat("2,-1;-1,2"),
+        parse_mat("4,2;2,3"),
+        parse_mat("1,0,0;0,2,1;0,1,1"),
+        parse_mat("1,0;0,2"),
+        parse_mat("2,0,0;0,1,0;0,0,4"),
+    ];
+    for n in 1..=4usize {
+        exact_forms.push(identity(n));
+        exact_forms.push(identity(n).iter().map(|r| r.iter().map(|x| x * BigInt::from(2)).collect()).collect());
+    }
+    for q in &exact_forms {
+        let top = if q.len() <= 2 { 8 } else if q.len() == 3 { 5 } else { 3 };
+        for c in 0..=top {
+            do_enum(ctx, q, &BigRational::from(BigInt::from(c)));
+        }
     }
     // Z^n, A_n, D_n (n <= 5)
     for n in 1..=5usize {
